@@ -330,6 +330,31 @@ type pathState struct {
 	trail  []string
 }
 
+// okImpliesNoError: result j of fn is a bool that is the constant true only on
+// returns whose error is the nil constant (and is a constant on every return).
+func okImpliesNoError(fn *ssa.Function, j int) bool {
+	if fn == nil || fn.Blocks == nil || j >= fn.Signature.Results().Len()-1 || !lastIsError(fn.Signature) {
+		return false
+	}
+	if b, ok := fn.Signature.Results().At(j).Type().Underlying().(*types.Basic); !ok || b.Kind() != types.Bool {
+		return false
+	}
+	ntrue := 0
+	for _, r := range expandedReturns(fn) {
+		k, ok := stripConv(r.Results[j]).(*ssa.Const)
+		if !ok || k.Value == nil {
+			return false
+		}
+		if k.Value.ExactString() == "true" {
+			ntrue++
+			if !isNilConst(stripConv(r.Results[len(r.Results)-1])) {
+				return false
+			}
+		}
+	}
+	return ntrue > 0
+}
+
 // consumerCheck explores every CFG path from call c on which "c's error may
 // be non-nil" has not been refuted and reports paths that lose the error.
 func (p *Prog) consumerCheck(fn *ssa.Function, c *ssa.Call, errV, stV ssa.Value, kind string) (problems []string, onlyWhenCtxLive bool) {
@@ -437,6 +462,25 @@ func (p *Prog) consumerCheck(fn *ssa.Function, c *ssa.Call, errV, stV ssa.Value,
 				if call, ok := cond.(*ssa.Call); ok && stV != nil && kind == "status" {
 					if p.isFailedMethod(call.Call.StaticCallee()) && sameValue(call.Call.Args[0], stV) {
 						e = false
+					}
+				}
+				// an `ok` result of the same call that the callee only sets
+				// together with a nil error: `v, ok, err := f(); if !ok { return …, err }`
+				{
+					base, neg := cond, false
+					for {
+						u, isNot := base.(*ssa.UnOp)
+						if !isNot || u.Op != token.NOT {
+							break
+						}
+						base, neg = u.X, !neg
+					}
+					if ex, ok := base.(*ssa.Extract); ok && ex.Tuple == ssa.Value(c) && okImpliesNoError(c.Call.StaticCallee(), ex.Index) {
+						if neg {
+							e = false // !ok is false: ok holds, the error is nil
+						} else {
+							t = false
+						}
 					}
 				}
 				liveEdge := -1 // successor index on which ctx.Err() == nil holds
@@ -745,6 +789,55 @@ var ruleLaunder = &Rule{
 	},
 }
 
+// flagsFailure: the return r of helper fn carries the constant false in a bool
+// result that is the constant true on some other return with a nil error
+// (okImpliesNoError), and every caller of fn branches on that result.
+func (p *Prog) flagsFailure(fn *ssa.Function, r RetSite) bool {
+	for j := 0; j < len(r.Results)-1; j++ {
+		k, ok := stripConv(r.Results[j]).(*ssa.Const)
+		if !ok || k.Value == nil || k.Value.ExactString() != "false" || !okImpliesNoError(fn, j) {
+			continue
+		}
+		node := p.CG.Nodes[fn]
+		if node == nil || len(node.In) == 0 {
+			continue
+		}
+		all := true
+		for _, e := range node.In {
+			c, ok := e.Site.(*ssa.Call)
+			if !ok || c.Call.StaticCallee() != fn {
+				all = false
+				break
+			}
+			ex := extractOf(c, j)
+			tested := false
+			if ex != nil {
+				var uses func(v ssa.Value, d int)
+				uses = func(v ssa.Value, d int) {
+					for _, u := range *v.Referrers() {
+						switch x := u.(type) {
+						case *ssa.If:
+							tested = true
+						case *ssa.UnOp:
+							if x.Op == token.NOT && d < 3 {
+								uses(x, d+1)
+							}
+						}
+					}
+				}
+				uses(ex, 0)
+			}
+			if !tested {
+				all = false
+			}
+		}
+		if all {
+			return true
+		}
+	}
+	return false
+}
+
 func (p *Prog) launderCheck(fn *ssa.Function, c *ssa.Call, stV, errV ssa.Value) []string {
 	var bad []string
 	failedK := constOf(p.A.StatusFailed)
@@ -779,6 +872,9 @@ func (p *Prog) launderCheck(fn *ssa.Function, c *ssa.Call, stV, errV ssa.Value) 
 				}
 				nonNil = all
 			}
+		}
+		if !nonNil && p.flagsFailure(fn, r) {
+			continue // the failure leaves through a false `ok` result that every caller tests
 		}
 		if !nonNil {
 			if p.statusFact(fs, stV, failedK) == 0 {
